@@ -41,8 +41,19 @@ func (e *Engine) load(p Ptr) Value {
 }
 
 func (e *Engine) checkStore(o *Obj) {
-	if o != nil && o.Protected != "" && e.tolerant == 0 {
+	if o == nil || e.tolerant != 0 {
+		return
+	}
+	if o.Protected != "" {
 		e.protectedStore(o)
+		return
+	}
+	// FreezeAll: everything that existed when it was called is read-only from then on
+	if e.freezeEpoch > 0 && o.Epoch < e.freezeEpoch && !o.Exempt {
+		saved := o.Protected
+		o.Protected = e.freezeLabel
+		e.protectedStore(o)
+		o.Protected = saved
 	}
 }
 
